@@ -175,6 +175,13 @@ def equivariant_on_generic_path(ctx: Ctx, rule: str):
         if r.frame is None:
             continue
         if r.degenerate:
+            lab = [v for v in r.frame if not v.eq]
+            if lab and not r.degenerate_exact:
+                ctx.ob(rule, f, "collinear path [%s]" % "; ".join(r.degenerate_tests), False,
+                       "a lab-frame completion is used only where the geometry leaves the frame undetermined, i.e. for an "
+                       "EXACTLY vanishing cross product -- this test is a tolerance: nearly collinear anchors, whose frame is "
+                       "fully determined, would get an orientation-dependent frame", node=r.ret_node)
+                continue
             ctx.ob(rule, f, "collinear path [%s]" % "; ".join(r.degenerate_tests), True,
                    "lab-frame / literal completions are confined to the path guarded by the vanishing cross product",
                    node=r.ret_node, vectors=[repr(v) for v in r.frame])
